@@ -59,7 +59,10 @@ impl FitToType for f32 {
     fn fit_to_type(self) -> Variant {
         let diff = self - self.round();
         let has_fraction = diff.abs() > 0.0001;
-        if has_fraction {
+        // whole numbers beyond the LONG range stay as they are
+        // (converting them to i64 would saturate)
+        let is_whole_long = self.round() >= MIN_LONG as f32 && self.round() < -(MIN_LONG as f32);
+        if has_fraction || !is_whole_long {
             Variant::VSingle(self)
         } else {
             (self.round() as i64).fit_to_type()
@@ -71,7 +74,10 @@ impl FitToType for f64 {
     fn fit_to_type(self) -> Variant {
         let diff = self - self.round();
         let has_fraction = diff.abs() > 0.0001;
-        if has_fraction {
+        // whole numbers beyond the LONG range stay as they are
+        // (converting them to i64 would saturate)
+        let is_whole_long = self.round() >= MIN_LONG as f64 && self.round() < -(MIN_LONG as f64);
+        if has_fraction || !is_whole_long {
             Variant::VDouble(self)
         } else {
             (self.round() as i64).fit_to_type()
